@@ -24,8 +24,14 @@ thread_local! {
 /// Install a panic hook that prints nothing and remembers the message (expected panics —
 /// domain exits, rejected projections, out-of-range indices — would otherwise flood stderr).
 pub fn quiet_panics() {
-    std::panic::set_hook(Box::new(|info| {
+    let loud = std::env::var("VERIF_LOUD").is_ok();
+    std::panic::set_hook(Box::new(move |info| {
         let s = format!("{}", info);
+        if loud {
+            // development aid: show where domain exits / panics come from
+            let why = info.payload().downcast_ref::<DomainExit>().map(|d| d.0).unwrap_or("");
+            eprintln!("PANIC {why} {s}\n{}", std::backtrace::Backtrace::force_capture());
+        }
         LAST_PANIC.with(|p| *p.borrow_mut() = s);
     }));
 }
